@@ -159,7 +159,7 @@ def evaluate(scn: dict[str, Any], tag: str, script: list[int] | None = None) -> 
 
 POLICIES = [
     {},
-    {},
+    {"hold_replies": True},
     {"deliver_weight": 0.1},
     {"deliver_weight": 8.0},
     {"hold_replies": True},
@@ -170,7 +170,7 @@ POLICIES = [
 
 def gen(k: int, tier: str) -> dict[str, Any]:
     rng = kit.family_rng(PROP, "scn", k)
-    cfgs = [c for c in histsim.STORE_CONFIGS if c["format"] == "ff"] + [histsim.STORE_CONFIGS[3]]
+    cfgs = [c for c in histsim.STORE_CONFIGS if c["format"] == "ff"] + [histsim.STORE_CONFIGS[3], {"store": "sqlite", "shards": 2, "format": "ff"}, {"store": "sqlite", "shards": 3, "format": "ff"}]
     cfg = cfgs[k % len(cfgs)]
     base = histsim.gen_history_scenario(rng, cfg=cfg, max_steps=2, max_mods=9, clock_mode="plain")
     # more entry points -> wider graphs
@@ -179,7 +179,38 @@ def gen(k: int, tier: str) -> dict[str, Any]:
     scn: dict[str, Any] = dict(base)
     for st in scn["steps"]:
         st["run"] = False
+    rs = kit.family_rng(PROP, "shape", k)
+    st0 = scn["project"]
+    if st0.get("shape") is None and rs.random() < 0.35:
+        # swarm shape "cycles": several disjoint import cycles, all reachable from entry points, so that a
+        # parallel build has multi-module SCCs to process at the same time
+        plain = [m for m in sorted(st0["mods"]) if "." not in m and m != "m0"]
+        rs.shuffle(plain)
+        st0["shape"] = "cycles"
+        for g in [plain[i : i + 2] for i in range(0, len(plain) - 1, 2)][:3]:
+            for a, b in zip(g, g[1:] + g[:1]):
+                if not any(i["mod"] == b for i in st0["mods"][a]["imports"]):
+                    st0["mods"][a]["imports"].append({"mod": b, "style": rs.choice(["import", "from", "import"]), "ignore": False})
+            st0["roots"] = sorted(set(st0["roots"]) | {g[0]})
     scn["mode"] = rng.choice(["cold", "cold", "warm_seq", "warm_par"])
+    if scn["mode"] != "cold" and rng.random() < 0.6:
+        # make the warm run interesting for the coordinator: the interfaces of two different modules that
+        # other (untouched) modules depend on change in the same step
+        st2 = copy.deepcopy(base["project"])
+        for st in scn["steps"]:
+            for e in st["edits"]:
+                project.apply_edit(st2, e)
+        refs = sorted(set(project.referenced_slots(st2)))
+        rng.shuffle(refs)
+        picked: list[tuple[str, str]] = []
+        for mid_, name_ in refs:
+            if all(mid_ != p_[0] for p_ in picked):
+                picked.append((mid_, name_))
+            if len(picked) == 2:
+                break
+        extra_edits = [{"e": "slot", "mod": mid_, "name": name_, "spec": project.gen_slot(rng, st2["mods"][mid_], name_)} for mid_, name_ in picked]
+        if extra_edits:
+            scn["steps"] = scn["steps"] + [{"edits": extra_edits, "gap_s": 2.0, "run": False}]
     if scn["mode"] == "cold":
         # edits are simply part of the program
         pass
@@ -221,7 +252,7 @@ def par_cases() -> list[dict[str, Any]]:
                     continue  # documented as unsupported in parallel mode / by the native parser; the suite skips them too
                 nfiles = sum(1 for p in c["steps"][0] if p.endswith((".py", ".pyi")) and p not in ("builtins.pyi", "typing.pyi", "_typeshed.pyi"))
                 if corpus.usable(c) and nfiles >= 2 and all(f is None for f in c["flags"][1:]) and all(a is None for a in c["argv"][1:]):
-                    if any("--no-incremental" in t or "--cache-dir" in t or "-n" == t for t in (c["flags"][0] or [])):
+                    if any("--no-incremental" in t or "--cache-dir" in t or "-n" == t or "--no-local-partial-types" in t for t in (c["flags"][0] or [])):
                         continue
                     out.append(c)
         _par_cases = out
